@@ -71,7 +71,8 @@ CHECKS["C08"] = dict(
 CHECKS["C10"] = dict(
     text="No-alias clauses of the map kernel (returned list fresh or the argument itself, argument untouched), clone-or-"
          "argument identity of the nodes inserted by the vault operations, detached copies of the Row getters and the "
-         "stores-by-copy clause of set/insert/append (clone=True) proved; Document.clone over packagings and load states bounded.",
+         "stores-by-copy clause of set/insert/append (clone=True) proved; Document.clone over packagings and load states, "
+         "XmlPart.clone and Element.clone (clones of clones, absolute paths) bounded.",
     note=TB + BND, technique="heap identity / freshness clauses in the VC generator, z3")
 CHECKS["C11"] = dict(
     text="Frame condition: the serialisation / pretty-printing entry points of XmlPart do not modify the in-memory trees "
